@@ -23,9 +23,9 @@ CLAIMS = {
     "C06": dict(cat="proof", tech="Verus on CompileCtx + compile_*op! emitters; Kani on constant codecs; syntactic emitter/factory order pass",
                 text="Partial, modular: the real CompileCtx register allocator and emit_* methods and the five emitter macros (instantiated mechanically) are proved to emit ConstLoad per operand then the op with registers in (out, arg1, arg2, ..) order; ConstElem write_le/from_le round trips proved for every scalar kind; symbol-section count round trip proved for every n; an anchor pass checks that every struct template passes its fields to the emitter in the order its factory reads them. Whole-program equivalence is only the (unchecked) composition.",
                 note="Assumed: Cell::compile_const touches only constant tables; hash_str uninterpreted; run_program does not re-solve. Not decided: name registration, compile_varop!, matrix/set/table constants, no-panic.", ref="4 C06"),
-    "C07": dict(cat="proof", tech="Kani contract harnesses on codecs / CRC gate / loader + Verus on pure helpers",
-                text="Per-item codec round trips (header, instruction forms, const entries, opcode/type tags) proved loop-free over all field values on the real encoders/decoders incl. byte_len and re-encoding; CRC gate `Ok <=> crc32(payload)==trailer` at fixed lengths; truncated-instruction rejection; pure helpers (check_alignment, align_up, decode_version_from_u16) proved by Verus.",
-                note="Trusted: crc32fast == reference CRC-32 (stubbed under Kani), fmt and caller-location stubs, byteorder/Cursor executed. Truncation clause not decidable (not a CRC theorem); burst theorem machine-checked for 6-byte payloads only; loader no-panic on hostile bytes only in the thorough tier and mostly undecided (CBMC cost).", ref="4 C07"),
+    "C07": dict(cat="proof", tech="Kani contract harnesses on codecs / CRC gate + Verus on the whole load path transcribed onto a cursor model (panic-freedom, termination, allocation bound for EVERY byte sequence) + Verus on pure helpers",
+                text="Per-item codec round trips (header, instruction forms, const entries, opcode/type tags) proved loop-free over all field values on the real encoders/decoders incl. byte_len and re-encoding; CRC gate `Ok <=> crc32(payload)==trailer` at fixed lengths; truncated-instruction rejection. For EVERY byte sequence, decode_instructions, parse_const_entries and load_program_from_reader (with section_in_file) terminate, have no arithmetic overflow/underflow or lossy cast, and never allocate more than the file is long (Verus, on a mechanical transcription onto a model of Cursor/byteorder; the unchecked VarArg count and the unchecked header lengths this exposed were repaired by two fix: commits). Pure helpers (check_alignment, align_up, decode_version_from_u16) proved by Verus.",
+                note="Trusted: crc32fast == reference CRC-32 (stubbed under Kani), fmt and caller-location stubs, byteorder/Cursor executed under Kani and MODELLED under Verus (contracts/C07/curmodel.rs: a read succeeds iff enough bytes remain; decoded values arbitrary). Not decided: decode_const_entries / from_le of matrix constants on hostile input, ByteCodeHeader::read_from (fixed-size reads, modelled), verify_crc_trailer_seek's buffer (= file size by construction); truncation is not a CRC theorem; burst theorem machine-checked for 6-byte payloads only.", ref="4 C07"),
     "C11": dict(cat="proof", tech="Verus contracts on the real CopyMat copy loops (transcribed onto the matrix model) and, modularly against those contracts, on the solve() bodies of the dynamic concat structs; Kani twins on real nalgebra",
                 text="CopyMat::{copy_into,copy_into_v,copy_into_r} place a block at a linear offset and copy_into_row_major places an r-row block at off + j*R + i of a column-major destination, touching nothing else, for every shape; Horizontal/VerticalConcatenate{TwoArgs,ThreeArgs,FourArgs}::solve and VerticalConcatenateVD{2,3,4}::solve are checked against those contracts (not the callee bodies): out is the block matrix of the operands in written order, later blocks never clobber earlier ones. Kani twins (bounded block shapes) additionally cover the NArgs/RDN structs. Shape/kind rejection (evaluator + compile routing) not decided.",
                 note="Assumed: nalgebra containers behave as contracts/common/matmodel.rs; elements modelled as u64; source and destination do not alias; copy_into_row_major needs dst.len + dst.nrows <= usize::MAX. Only the kernels built in the default (dynamic) configuration.", ref="4 C11"),
